@@ -131,7 +131,10 @@ pub fn split_into_deflate_streams(
                     if let Ok((r, payload)) = parse_idat(&src[real_start..], 0) {
                         if let Ok(res) = decompress_deflate_stream(&payload, true, loglevel) {
                             let length = r.total_chunk_length;
-                            if length > MIN_BLOCKSIZE {
+
+                            // the deflate stream has to end exactly where the adler32 starts,
+                            // otherwise the IDAT chunks cannot be recreated from it
+                            if length > MIN_BLOCKSIZE && res.compressed_size == payload.len() {
                                 locations_found.push(BlockChunk::Literal(real_start - prev_index));
 
                                 locations_found.push(BlockChunk::IDATDeflate(r, res));
